@@ -126,6 +126,15 @@ def _one(emmet, vec, section, typ, syn, conc, tabs, bad, stats):
                     bad.append(('effective-value' + vname, dict(case, key=c, expected='<absent>', actual=repr(merged[c]))))
             elif c not in merged or merged[c] != val:
                 bad.append(('effective-value' + vname, dict(case, key=c, expected=repr(val), actual=repr(merged.get(c, '<absent>')))))
+    # the custom layers of this vector define entries of one section only: the other two sections are what they are without them
+    try:
+        plain = emmet.Config({'type': typ, 'syntax': syn}, {})
+        for other in SECTIONS:
+            if other != section and getattr(conf, other) != getattr(plain, other):
+                extra = sorted(set(getattr(conf, other)) ^ set(getattr(plain, other)))[:4]
+                bad.append(('effective-value (other section)', dict(case, other_section=other, keys=extra)))
+    except Exception as ex:
+        bad.append(('Config raised', dict(case, exception=type(ex).__name__, variant='without custom layers')))
     if user != user_before or glob != glob_before:
         bad.append(('caller-dict-modified', case))
     # ---- through expand
